@@ -61,6 +61,8 @@ def main(argv):
     argv = [a for a in argv if a != "-v"]
     props = [a for a in argv if a.startswith("C") and len(a) == 3]
     pats = [a for a in argv if a not in props]
+    jflag = [a for a in pats if a.startswith("-j")]
+    pats = [a for a in pats if not a.startswith("-j")]
     if not pats:
         pats = sorted(glob.glob(os.path.join(build.VERIF, "selftest", "mutations", "*.patch"))) + \
             sorted(glob.glob(os.path.join(build.VERIF, "selftest", "benign", "*.patch")))
@@ -73,9 +75,21 @@ def main(argv):
                 out += sorted(glob.glob(os.path.join(build.VERIF, "selftest", "*", "*%s*.patch" % p)))
                 out += sorted(glob.glob(os.path.join(build.VERIF, "seeded", "*%s*" % p, "patch.diff")))
         pats = out
+    pats = pats + jflag
     bad = 0
-    for p in pats:
-        r = run_patch(p, props or None, verbose=verbose)
+    jobs = 1
+    for a in list(pats):
+        if a.startswith("-j"):
+            jobs = int(a[2:] or 8)
+    pats = [p for p in pats if not p.startswith("-j")]
+    if jobs > 1:
+        from concurrent.futures import ThreadPoolExecutor
+        with ThreadPoolExecutor(max_workers=jobs) as ex:
+            results = list(ex.map(lambda p: run_patch(p, props or None, verbose=False), pats))
+    else:
+        results = None
+    for i, p in enumerate(pats):
+        r = results[i] if results is not None else run_patch(p, props or None, verbose=verbose)
         if "error" in r:
             print("ERROR  %s: %s" % (p, r["error"]))
             bad += 1
